@@ -42,7 +42,7 @@ def attribute(ent, bad_cfg, job):
         for ob, ans in zip(obs, coq_eval_cases('C09', hdr, exprs, shard=50, name='Attr')):
             for k, c in re.findall(r'\((\d+), (\d+)\)', ans):
                 k, c = int(k), int(c)
-                keys.add('conflict:' + c02.clause_key(ent['logic'], c, 'frame' if c in (4, 6) else ob['shapes'][k]))
+                keys.add('conflict:' + c02.clause_key(ent['logic'], c, 'frame' if c in (4, 6) else ob['shapes'][k], True, ob))
         if keys:
             return sorted(keys)
     except Exception as e:     # attribution is best effort; an unexplained conflict stays a plain violation
